@@ -93,6 +93,12 @@ class Module:
             self.tree = ast.parse(self.src, filename=path)
         except SyntaxError as err:
             raise AnalysisError("cannot parse %s: %s" % (self.relpath, err))
+        # helpers that are not part of the confirmed inventory are analysed in place of their calls
+        from .inline import inline_module
+        try:
+            self.tree, self.inline_report = inline_module(self.tree, name)
+        except RecursionError:
+            self.inline_report = ["inlining abandoned: recursion limit"]
         self.functions = {}
         self.classes = {}
         self.imports = {}      # local name -> ('repo', module, name) | ('ext', dotted)
